@@ -109,6 +109,8 @@ type Monitor struct {
 	leakReported     map[string]bool
 	Refresh0Err      map[string]int // client -> error code of its last Refresh(0), if it was not followed by a success
 	relayConns       []*relayConn
+	resv             map[string]*mResv
+	halfOpenReported map[uint32]bool
 	dataConns        map[uint32]*TCPConn
 	pipeClosed       []pipeClose
 	unboundReported  map[uint32]bool
@@ -134,7 +136,7 @@ func NewMonitor(k *Kernel, n *Net, p *Plan) *Monitor {
 	m := &Monitor{K: k, Net: n, P: p, M: NewModel(perm, ch, life), users: map[string]string{}, denyPeer: map[string]bool{},
 		denyClient: map[string]bool{}, nonces: map[string]*nonceInfo{}, intents: map[string]*Intent{}, reqs: map[string][]*mReq{},
 		evCount: map[string]int{}, states: map[string]struct{}{}, srvWriteFailed: map[string]bool{}, MustMax: 1400,
-		tcpCtl: map[*TCPConn]*ctlStream{}, relayErr: map[string]int64{}, relayWriteErr: map[string]bool{}, orphanDeletes: map[string][]int64{}, leakReported: map[string]bool{}, Refresh0Err: map[string]int{}, dataConns: map[uint32]*TCPConn{}, unboundReported: map[uint32]bool{}, readCalls: map[string]int{}, anyMsg: map[string]bool{}, ctlEnded: map[string]int64{}}
+		tcpCtl: map[*TCPConn]*ctlStream{}, relayErr: map[string]int64{}, relayWriteErr: map[string]bool{}, orphanDeletes: map[string][]int64{}, leakReported: map[string]bool{}, Refresh0Err: map[string]int{}, dataConns: map[uint32]*TCPConn{}, unboundReported: map[uint32]bool{}, halfOpenReported: map[uint32]bool{}, readCalls: map[string]int{}, anyMsg: map[string]bool{}, ctlEnded: map[string]int64{}}
 	m.InboundMTU = p.Cfg.InboundMTU
 	if m.InboundMTU == 0 {
 		m.InboundMTU = 1600
@@ -295,6 +297,9 @@ func (m *Monitor) IOFaulted(role, op, addr string) {
 		m.relayWriteErr[addr[:i]] = true
 	case role == "listener" && op == "WriteTo":
 		i := strings.Index(addr, ">")
+		m.srvWriteFailed[addr[i+1:]] = true
+	case role == "listener-conn" && op == "Write":
+		i := strings.LastIndex(addr, ">")
 		m.srvWriteFailed[addr[i+1:]] = true
 	case role == "listener" && op == "Accept":
 		m.serverClosed = true
@@ -542,6 +547,36 @@ func (m *Monitor) ownerAllocs(r *mReq, I ivl) (poss []*mAlloc, def *mAlloc) {
 	return
 }
 
+func plainUDPTransport(msg *stun.Message) bool {
+	v, err := msg.Get(attrReqTransport)
+	return err == nil && len(v) == 4 && v[0] == 17
+}
+
+type mResv struct {
+	Port int
+	IP   string
+	At   ivl
+	Used bool
+}
+
+// tokenOf: the reservation the request's RESERVATION-TOKEN names, if the monitor saw it issued.
+func (m *Monitor) tokenOf(r *mReq) *mResv {
+	if v, err := r.Msg.Get(attrReservationTok); err == nil && m.resv != nil {
+		return m.resv[string(v)]
+	}
+	return nil
+}
+
+// portBusy: some allocation may hold the reserved relay port during I.
+func (m *Monitor) portBusy(rv *mResv, I ivl) bool {
+	for _, a := range m.M.ByRelay[net.JoinHostPort(rv.IP, itoa(rv.Port))] {
+		if m.M.PossiblyAlive(a, I.Lo, I.Hi) {
+			return true
+		}
+	}
+	return false
+}
+
 func (m *Monitor) expectedLifetime(msg *stun.Message) (want int64, either bool) {
 	if v, ok := getU32(msg, attrLifetime); ok {
 		if int64(v) < 3600 {
@@ -558,6 +593,12 @@ func (m *Monitor) expectedLifetime(msg *stun.Message) (want int64, either bool) 
 func (m *Monitor) respAllocate(r *mReq, msg *stun.Message, ok bool, code int, I ivl) {
 	poss, def := m.ownerAllocs(r, I)
 	if !ok {
+		if rv := m.tokenOf(r); rv != nil && r.Auth > 0 && code != 401 && code != 438 && !rv.Used && I.Hi < rv.At.Lo+30e9 && len(poss) == 0 &&
+			!r.Msg.Contains(attrEvenPort) && !r.Msg.Contains(attrReqAddrFamily) && plainUDPTransport(r.Msg) && len(m.K.StallIntervals()) == 0 && !m.srvWriteFailed[r.Client] && !m.portBusy(rv, I) {
+			// the token is in range, has not expired, its port is free, and nothing else is wrong
+			// with the request: an earlier *refused* request that carried it must not have used it up
+			m.v([]string{"C19"}, "reservation-refused", kv("code", itoa(code)), "Allocate from %s with a valid, unexpired reservation token (port %d, %d ms old) answered %d", r.Client, rv.Port, (I.Lo-rv.At.Hi)/1e6, code)
+		}
 		if code == 437 && len(poss) == 0 && r.Auth > 0 && !m.pendingAllocateOther(r) && len(m.K.StallIntervals()) == 0 {
 			m.v([]string{"C04", "C19"}, "cross-talk", kv("what", "allocate-437-without-allocation"),
 				"Allocate from %s answered 437 (allocation mismatch) although that 5-tuple has no allocation: another 5-tuple's allocation was found for it", r.Client)
@@ -581,6 +622,20 @@ func (m *Monitor) respAllocate(r *mReq, msg *stun.Message, ok bool, code int, I 
 	if !okR || !okL {
 		m.v([]string{"C19"}, "malformed-success", kv("method", "allocate"), "Allocate success lacks relayed address or lifetime")
 		return
+	}
+	if tok, err := msg.Get(attrReservationTok); err == nil && r.Auth > 0 {
+		if m.resv == nil {
+			m.resv = map[string]*mResv{}
+		}
+		if m.resv[string(tok)] == nil {
+			m.resv[string(tok)] = &mResv{Port: relay.Port + 1, IP: relay.IP.String(), At: I}
+		}
+	}
+	if rv := m.tokenOf(r); rv != nil && r.Auth > 0 {
+		if relay.Port != rv.Port {
+			m.v([]string{"C19"}, "reservation-wrong-port", nil, "Allocate with the reservation token of port %d was given relayed port %d", rv.Port, relay.Port)
+		}
+		rv.Used = true
 	}
 	sig := attrSig(msg)
 	for _, a := range poss {
